@@ -357,6 +357,14 @@ JudgeGit(ev, pre, post, i) ==
               (IF ~IsPrefix(pg.log, g.log)
                  THEN Viol("C09", [w |-> "history-rewritten", c |-> c], i) ELSE {})
               \cup
+              \* a member write that is acknowledged and that the property level says changes the
+              \* collection (e.g. back to contents it had earlier) must show as a commit
+              (IF IsPrefix(pg.log, g.log) /\ d = 0 /\ ev.op \in {"Put", "Post", "Delete"} /\ ev.c = c
+                  /\ Reported(ev)
+                  /\ LET o == Outcome(ev, pre) IN
+                       o.must = "succeed" /\ c \in DOMAIN o.st.store /\ o.st.store[c] # Proj(pre).store[c]
+                 THEN Viol("C09", [w |-> "acknowledged-change-without-commit", c |-> c], i) ELSE {})
+              \cup
               (IF IsPrefix(pg.log, g.log) /\ changed /\ ~(d >= 1 /\ (d = 1 \/ d <= k))
                  THEN Viol("C09", [w |-> "change-without-exactly-one-commit", c |-> c, commits |-> d], i) ELSE {})
               \cup
@@ -396,6 +404,11 @@ JudgeSync(post, i) ==
                       THEN Viol("C07", [w |-> "wrong-change-list", c |-> c, t |-> r.t,
                                         changed |-> r.changed, removed |-> r.removed,
                                         want |-> exps], i)
+                           \* C02: the etag a sync report carries for a live member is the
+                           \* member's etag (the same value every other view shows)
+                           \cup (IF \E n \in DOMAIN r.changed \cap DOMAIN EMap(post, c) : r.changed[n] # EMap(post, c)[n]
+                                  THEN Viol("C02", [w |-> "sync-report-etag-differs-from-getetag", c |-> c, t |-> r.t], i)
+                                  ELSE {})
                     ELSE {}
         : k \in DOMAIN post.colls[c].sync }
       : c \in Colls(post) }
